@@ -16,7 +16,9 @@ fault>) must raise.
 
 Stage ``faults`` samples faults (many per generated dataset); stage ``sweep``
 enumerates, for each generated dataset, every byte offset (one generated bit
-each) and every truncation length of every metadata file, the first/last 256
+each) and every truncation length of every metadata file, substitution by 8
+"interesting" byte values and insertion of CR / space / LF at every line and
+indentation start (thorough: at every offset), the first/last 256
 bytes and a strided interior of every shard, all deletions, sibling swaps and
 rollbacks.
 """
@@ -50,8 +52,13 @@ ASSUMPTIONS = [
 
 KINDS = [
     "flip", "flip", "truncate", "extend", "delete", "swap", "rollback",
-    "rollback_chain", "foreign"
+    "rollback_chain", "foreign", "subst", "subst", "insert"
 ]
+# "interesting" byte values for substitutions / insertions: white space and
+# line-end variants (text files parse the same after such a change), NUL,
+# digits, 0xFF.
+INTERESTING = [0x0D, 0x0A, 0x20, 0x09, 0x00, 0x30, 0x31, 0xFF]
+INSERTS = [b"\r", b" ", b"\n"]
 
 
 def st_fault():
@@ -59,7 +66,8 @@ def st_fault():
         "role": st.sampled_from(["shard", "shard", "list", "list", "info"]),
         "pick": st.integers(0, 40),
         "kind": st.sampled_from(KINDS),
-        "region": st.sampled_from(["first", "last", "interior", "interior"]),
+        "region": st.sampled_from(
+            ["first", "last", "interior", "interior", "newline", "newline"]),
         "frac": st.integers(0, 9999),
         "bit": st.integers(0, 7),
         "extra": st.binary(min_size=1, max_size=6),
@@ -94,6 +102,7 @@ def strategy_sweep(draw, tier):
                                     busy=True,
                                     min_ops=2))
     case["bitseed"] = draw(st.integers(0, 7))
+    case["dense"] = tier == "thorough"
     return case
 
 
@@ -172,6 +181,20 @@ def apply_fault(c: Committed, rel: str, kind: str, pos: int, bit: int,
             return None
         pos %= len(data)  # new length 0..len-1
         path.write_bytes(data[:pos])
+    elif kind == "subst":
+        if not data:
+            return None
+        pos %= len(data)
+        value = INTERESTING[bit % len(INTERESTING)]
+        if data[pos] == value:
+            return None
+        new = bytearray(data)
+        new[pos] = value
+        path.write_bytes(bytes(new))
+    elif kind == "insert":
+        pos %= len(data) + 1
+        path.write_bytes(data[:pos] + INSERTS[bit % len(INSERTS)] +
+                         data[pos:])
     elif kind == "extend":
         path.write_bytes(data + extra)
     elif kind == "delete":
@@ -245,8 +268,8 @@ def one_fault(c: Committed, ctx, rel: str, role: str, kind: str, pos: int,
                 f"open+check returned normally; algorithms {c.algos}")
     finally:
         restore(c, undo)
-    pc = pos_class(pos % max(size, 1), size) if kind in ("flip",
-                                                         "truncate") else "-"
+    pc = pos_class(pos % max(size, 1), size) if kind in (
+        "flip", "truncate", "subst", "insert") else "-"
     nontrivial = (kind in ("swap", "rollback", "rollback_chain", "foreign") or
                   pc == "interior" or c.depth.get(rel, 0) >= 2 or
                   (role == "shard" and c.shards.index(rel) > 0))
@@ -319,6 +342,10 @@ def run_faults(case, ctx):
                 pos = 0
             elif f["region"] == "last":
                 pos = max(size - 1, 0)
+            elif f["region"] == "newline":
+                data = (c.root / rel).read_bytes()
+                nl = [i for i, ch in enumerate(data) if ch in (0x0A, 0x20)]
+                pos = nl[f["frac"] % len(nl)] if nl else 0
             else:
                 pos = (f["frac"] * max(size, 1)) // 10000
             other = None
@@ -369,6 +396,17 @@ def run_sweep(case, ctx):
                           hist_fp)
                 one_fault(c, ctx, rel, role, "truncate", pos, 0, b"", None,
                           None, hist_fp)
+            data = (c.root / rel).read_bytes()
+            for pos in range(size):
+                structural = data[pos] in (0x0A, 0x20) and (
+                    pos == 0 or data[pos - 1] != 0x20)
+                if case.get("dense") or structural:
+                    for v in range(len(INTERESTING)):
+                        one_fault(c, ctx, rel, role, "subst", pos, v, b"",
+                                  None, None, hist_fp)
+                    for v in range(len(INSERTS)):
+                        one_fault(c, ctx, rel, role, "insert", pos, v, b"",
+                                  None, None, hist_fp)
             one_fault(c, ctx, rel, role, "extend", 0, 0, b" ", None, None,
                       hist_fp)
             one_fault(c, ctx, rel, role, "extend", 0, 0, b"\n", None, None,
